@@ -170,6 +170,12 @@ func Families() []Named {
 		{"wide-state", Parse("S", []string{"TA", "TB", "TC", "TD", "TE", "TF", "TG", "TH", "TI", "TX"}, "S: TA TX | TB TX | TC TX | TD TX | TE TX | TF TX | TG TX | TH TX | TI TX | C TX ; C: TA TB")},
 		// dangling else where the declarations make the reduction win: the state behind the else is cut off, with its successors
 		{"dangling-else-reduce-wins", Parse("S", []string{"TI", "TE", "TA"}, "S: TI S | TI S TE S | TA").WithPrec("left TE", "left TI")},
+		// names longer than sixteen characters that share their first sixteen
+		{"long-names-common-prefix", Parse("translation_unit_list", []string{"TA", "TB"}, "translation_unit_list: argument_expression_list TA | argument_expression_tail TB ; argument_expression_list: TA ; argument_expression_tail: TB TA")},
+		// two literals beyond ASCII, the code point of one equals the first UTF-8 byte of the other (U+00D0, U+0436 = D0 B6)
+		{"literals-beyond-ascii", Parse("S", nil, "S: '\u00d0' 'x' | '\u0436' 'y'")},
+		// a goto target gets a further kernel item that has a terminal behind the dot, and the same item set is reached a second way
+		{"late-kernel-item", Parse("top", []string{"TP", "TX", "TY", "TZ", "TM"}, "top: s | TP s TZ ; s: TX n TZ | TX TY ; n: TY ; top: TP TX mm ; mm: TM")},
 		{"rr-same-level-right", Parse("S", []string{"TA", "TC"}, "S: V TA | C TA | V ; V: TA %prec TC ; C: TA %prec TC").WithPrec("right TC")},
 	}
 }
